@@ -21,6 +21,17 @@ TECH = "Lean 4 theorems over a hand-written executable model; tie = decision exp
 NOT_APPLICABLE = {}
 
 PROPS = {
+    "C11": dict(
+        level="proof", engines=[eng("corr", 2000, 40000)], labels=["C11"],
+        text="Theorems (Props/C11.lean): the object starts at LevelNotSet with no reply; the watcher invariant (closed iff level reached or completed) is preserved by Watch at any "
+             "moment and by every publication; the loop never calls set on a completed object; published levels never decrease; only the last snapshot can be completed (done is final); "
+             "a strictly higher level is published at once with the quorum function's value and releases the watchers at or below it; done publishes QF's value, releases everything; "
+             "context end / exhaustion (also zero targets; streams: all failed) complete with the right error; every stored reply is a QF value, so the typed accessors never panic. "
+             "Tie (Tie/C11.lean): initial level, both exhaustion arms and their position, both watcher comparisons and the publication structure of the reply case are regenerated from "
+             "correctable.go on every run; digests; exact differential run of all 12 correctable variants (gated arrivals, snapshots of raw/typed Get, Done and every Watch channel after every arrival).",
+        note="Trusted: Lean kernel; gx; the hand-written loop/object model (tied by T1 facts, digests and the exact T3 run). Not observable without instrumentation: the order in which two "
+             "error arrivals that do not change the published state are consumed (error lists are compared as sets) and, for streams, whether an error arrival was consumed before the context ended.",
+    ),
     "C14": dict(
         level="proof", engines=[eng("cfg", 20000, 1000000)], labels=["C14"],
         text="Theorems (Props/C14.lean, 49 lemmas): the manager invariant PoolOK (one node object per ID) is preserved by every constructor, also when it fails; every created "
